@@ -199,6 +199,58 @@ func main() {
 			})
 		}
 	}
+	// targeted stream: 8-byte length prefixes with huge declared lengths (beyond MaxInt64 too)
+	for i := 0; i < n/8 && !hung; i++ {
+		max := []uint64{1 << 56, 1 << 63, 1<<64 - 1, 1<<63 - 1}[r.Intn(4)]
+		tag := fmt.Sprintf("maxlen:%d", max)
+		var t *tlsgen.Ty
+		elem := &tlsgen.Ty{Kind: []string{"u16", "u24", "arr"}[r.Intn(3)], N: 2}
+		inner := &tlsgen.Ty{Kind: "bytes"}
+		if r.Intn(2) == 0 {
+			inner = &tlsgen.Ty{Kind: "vec", Elem: elem}
+		}
+		asField := r.Intn(2) == 0
+		if asField {
+			t = &tlsgen.Ty{Kind: "struct", Fields: []tlsgen.Field{{Name: "A", T: &tlsgen.Ty{Kind: "u8"}}, {Name: "B", Tag: tag, T: inner}}}
+			tag = ""
+		} else {
+			t = inner
+		}
+		body := make([]byte, r.Intn(9))
+		r.Read(body)
+		declared := []uint64{1 << 63, 1<<64 - 1, 1<<63 + uint64(r.Intn(100)), uint64(len(body)), uint64(len(body)) + 1, 1<<63 - 1, 1 << 62}[r.Intn(7)]
+		var in []byte
+		if asField {
+			in = append(in, byte(r.Intn(256)))
+		}
+		for k := 7; k >= 0; k-- {
+			in = append(in, byte(declared>>(8*uint(k))))
+		}
+		in = append(in, body...)
+		gt := t.GoType()
+		dst := reflect.New(gt)
+		po := guarded(func() outcome {
+			rest, err := tls.UnmarshalWithParams(in, dst.Interface(), tag)
+			return outcome{class: classify(err), rest: rest}
+		})
+		hung = hung || po.class == "hang"
+		pobs := coqClass(po.class)
+		pOK, pnote := true, ""
+		if po.class == "ok" {
+			pobs = fmt.Sprintf("Ok (%s, %s)", tlsgen.ValCoq(t, dst.Elem()), lib.Bytes(po.rest))
+			if declared > uint64(len(body)) {
+				pOK, pnote = false, fmt.Sprintf("declared length %d accepted with only %d bytes of input", declared, len(body))
+			}
+		} else if po.class == "panic" || po.class == "hang" {
+			pOK, pnote = false, fmt.Sprintf("Unmarshal %s on an 8-byte length prefix declaring %d for type %s", po.class, declared, t.String())
+		}
+		w.Add(lib.Case{
+			Coq:    fmt.Sprintf("CParse %s %s %s (%s)", t.Coq(), tlsgen.Clauses(tag), lib.Bytes(in), pobs),
+			Input:  map[string]interface{}{"op": "unmarshal", "type": t.String(), "params": tag, "bytes_kind": "huge-length", "declared": fmt.Sprint(declared), "len": len(in)},
+			Impl:   map[string]interface{}{"class": po.class, "rest": len(po.rest)},
+			PropOK: pOK, Note: pnote, Tags: []string{"parse:huge-length:" + strings.SplitN(po.class, ":", 2)[0]},
+		})
+	}
 	w.Close()
 	fmt.Printf("c09: wrote %d cases (hang seen: %v)\n", w.Len(), hung)
 }
